@@ -294,18 +294,14 @@ Definition find_attr_ins (l : list attr) (p : N) : option attr :=
 Fixpoint last_opt {A} (l : list A) (d : option A) : option A :=
   match l with [] => d | x :: t => last_opt t (Some x) end.
 
-(* Equal branch: every prior intersecting [old_pos, old_pos+len) shifted to new_pos; a zero-length
-   prior (deletion marker) lying in [old_pos, old_pos+len) moves along *)
+(* Equal branch: every prior intersecting [old_pos, old_pos+len) shifted to new_pos (a zero-length
+   prior never intersects anything, so deletion markers are dropped here: known class C16-K3) *)
 Definition eq_step (attrs : list attr) (old_pos new_pos len : N) : list attr :=
   flat_map (fun a => match inter a old_pos (old_pos + len) with
                      | Some (os, oe) =>
                          [mkAttr (new_pos + (os - old_pos)) (new_pos + (os - old_pos) + (oe - os))
                                  (a_author a) (a_ts a)]
-                     | None =>
-                         if (a_start a =? a_end a) && (old_pos <=? a_start a) && (a_start a <? old_pos + len)
-                         then [mkAttr (new_pos + (a_start a - old_pos)) (new_pos + (a_start a - old_pos))
-                                      (a_author a) (a_ts a)]
-                         else []
+                     | None => []
                      end) attrs.
 
 (* Delete branch, one mapping *)
